@@ -48,7 +48,7 @@ fn one_rate_only() -> BoxedStrategy<Cfg> {
 
 fn strategy(t: Tier) -> BoxedStrategy<RuleCase> {
     let cfgs = prop_oneof![
-        30 => gen::cfg(Kind::Default, t.pick(800, 2500)).prop_map(|(c, _)| c),
+        30 => gen::cfg(Kind::Default, t.pick(1000, 2500)).prop_map(|(c, _)| c),
         1 => one_rate_only(),
         // few shards of 64 KiB .. 4 MiB (size-dependent rate decisions)
         1 => gen::long_shard_cfg(),
